@@ -273,6 +273,12 @@ func run(env *simrt.Env, sci interface{}) {
 					if x, err := n1.ListenUDP("udp", &net.UDPAddr{IP: net.ParseIP("10.0.0.1"), Port: 0}); err == nil {
 						_ = x.Close()
 					}
+					if o%4 == 0 {
+						// a host joins the running router while it forwards
+						if nn, err := vnet.NewNet(&vnet.NetConfig{}); err == nil {
+							_ = wan.AddNet(nn)
+						}
+					}
 				case 8:
 					_, _ = n1.Interfaces()
 					_, _ = n1.ResolveUDPAddr("udp", "10.0.0.2:4000")
